@@ -239,7 +239,7 @@ give_seq_hash(simthreading.Thread)
 give_seq_hash(sim_cf_base.Future)
 
 
-def _acquire_futures_init(self, *futures):
+def _acquire_futures_init(self, futures):
     # the stdlib orders the condition acquisitions by id(): address-dependent
     self.futures = sorted(futures, key=hash)
 
